@@ -298,6 +298,52 @@ VARIANTS = [
     {"name": "P R8 TupleCoord.deserialize identity comprehension and mode-dependent result", "file": SER, "expect": "silent",
      "old": "        val = cls.COORD_CLS(*vals)\n        if cls.need_pod(reader):\n            return val.data()\n        return val\n",
      "new": "        val = cls.COORD_CLS(*[c for c in vals])\n        return val.data() if cls.need_pod(reader) else val\n"},
+    # ------------------------------------------------------------------ R2 (iv) zip against the spec table
+    {"name": "R2 Tuple.serialize arity check dropped, zip() swallows the surplus", "file": SER, "expect": "C08.R2",
+     "old": "        assert len(vals) == len(self._prim_seq)\n", "new": ""},
+    {"name": "R2 Tuple.serialize only refuses values that are too long, zip() shortens the spec walk", "file": SER,
+     "expect": "C08.R2",
+     "old": "        assert len(vals) == len(self._prim_seq)\n",
+     "new": "        if len(vals) > len(self._prim_seq):\n            raise ValueError(\"too many values\")\n"},
+    {"name": "P R2 Tuple.serialize arity assert as an explicit raise", "file": SER, "expect": "silent",
+     "old": "        assert len(vals) == len(self._prim_seq)\n",
+     "new": "        if len(self._prim_seq) != len(vals):\n            raise ValueError(\"wrong number of values\")\n"},
+    {"name": "P R2 ByteArray length taken into a local before the check and the write", "file": SER, "expect": "silent",
+     "old": "        if max_val < len(instance):\n            raise ValueError(f\"{instance!r} is wider than {max_val}\")\n"
+            "        writer.write(self._len_spec, len(instance), ctx=ctx)\n",
+     "new": "        n_bytes = len(instance)\n        if n_bytes > max_val:\n"
+            "            raise ValueError(f\"{instance!r} is wider than {max_val}\")\n"
+            "        writer.write(self._len_spec, n_bytes, ctx=ctx)\n"},
+    # ------------------------------------------------------------------ R3 / R4 preserving (helpers, renamed fields)
+    {"name": "P R3 Template.calc_size summing in a helper, cache filled by the caller", "file": SER, "expect": "silent",
+     "old": "    def calc_size(self):\n        if self._size is not MISSING:\n            return self._size\n        sum_bytes = 0\n",
+     "new": "    def calc_size(self):\n        if self._size is MISSING:\n            self._size = self._total()\n"
+            "        return self._size\n\n    def _total(self):\n        sum_bytes = 0\n"},
+    {"name": "P R4 BufferReader position committed by a helper method", "file": SER, "expect": "silent",
+     "edits": [
+         {"file": SER, "old": "        if not peek:\n            self._pos = end_pos\n        return read_bytes\n",
+          "new": "        if not peek:\n            self._advance_to(end_pos)\n        return read_bytes\n\n"
+                 "    def _advance_to(self, where):\n        self._pos = where\n"}]},
+    # ------------------------------------------------------------------ R9
+    {"name": "R9 OptionalFlagged reader wants the whole mask, writer any bit", "file": SER, "expect": "C08.R9",
+     "old": "        if self._normalize_flag_val(ctx) & self._flag_val:\n            return reader.read(self._ser_spec, ctx=ctx)\n",
+     "new": "        if (self._normalize_flag_val(ctx) & self._flag_val) == self._flag_val:\n"
+            "            return reader.read(self._ser_spec, ctx=ctx)\n"},
+    {"name": "R9 Collection reader treats a fixed length of one as greedy", "file": SER, "expect": "C08.R9",
+     "old": "        if self._len_spec or self._length:\n            if self._len_spec:\n                size = reader.read(",
+     "new": "        if self._len_spec or self._length > 1:\n            if self._len_spec:\n                size = reader.read("},
+    {"name": "P R9 OptionalFlagged writer spells the mask test as != 0", "file": SER, "expect": "silent",
+     "old": "        if self._normalize_flag_val(ctx) & self._flag_val:\n            writer.write(self._ser_spec, val, ctx=ctx)\n",
+     "new": "        if (self._flag_val & self._normalize_flag_val(ctx)) != 0:\n"
+            "            writer.write(self._ser_spec, val, ctx=ctx)\n"},
+    {"name": "P R9 Collection writer asks `is not None` of the length spec, flags hoisted into a local", "file": SER,
+     "expect": "silent",
+     "old": "        if self._len_spec:\n            writer.write(self._len_spec, len(entries), ctx=ctx)\n",
+     "new": "        if self._len_spec is not None:\n            writer.write(self._len_spec, len(entries), ctx=ctx)\n"},
+    {"name": "P R9 OptionalFlagged reader keeps the flags in a local first", "file": SER, "expect": "silent",
+     "old": "        if self._normalize_flag_val(ctx) & self._flag_val:\n            return reader.read(self._ser_spec, ctx=ctx)\n",
+     "new": "        current = self._normalize_flag_val(ctx)\n        if current & self._flag_val:\n"
+            "            return reader.read(self._ser_spec, ctx=ctx)\n"},
     # ------------------------------------------------------------------ documented limits (value level)
     {"name": "X Str strips NULs on both ends (same wire shape, different value)", "file": SER, "expect": "miss",
      "old": "                instance += b\"\\x00\"\n        writer.write(self._bytes_tmpl, instance, ctx=ctx)\n\n"
